@@ -33,7 +33,8 @@ theorem final_eq (s : Shared) : s.final = finalOf s.exc s.returned := rfl
 def CT (t : Thread) : Prop :=
   noFail t.src = true ∧ t.prog.noFail = true ∧ t.prog.kind ≠ .stopper ∧ t.pc ≠ .pRaiseT ∧
   (stopped t = true → t.rets = progRet t.prog) ∧ (stopped t = true → t.src = []) ∧
-  ((t.pc = .done ∨ t.pc = .bRaise) → t.result = [])
+  ((t.pc = .done ∨ t.pc = .bRaise) → t.result = []) ∧
+  t.reraise = none ∧ (t.pc = .done → isProd t = true → t.outcome = none)
 
 def CleanStep (s : Shared) (t : Thread) (tid : Tid) (alt : Bool) : Prop :=
   ∀ lbl s' t', stepThread s t tid alt = some (lbl, s', t') → TOK t → TL t →
@@ -46,12 +47,12 @@ macro "clean_group" : tactic => `(tactic| (
   intro lbl s' t' h htok htl he hsr hto hx3 hct
   unfold TL at htl
   have hk := htok.kind; have hr := htok.res
-  obtain ⟨c1, c2, c3, c4, c5, c7, c6⟩ := hct
+  obtain ⟨c1, c2, c3, c4, c5, c7, c6, c8, c9⟩ := hct
   clear htok
   unfold CT
   unfold stepThread at h
   cases hpc : t.pc <;> (try (simp only [hpc, Pc.group] at hg; omega)) <;>
-    simp only [hpc] at h hk hx3 c4 c6 htl <;>
+    simp only [hpc] at h hk hx3 c4 c6 c9 htl <;>
     (try simp only [Bool.false_eq_true, false_imp_iff] at hx3) <;>
     (try simp only [acquire, release, notify, waitPark, waitWake, goto, enqLoop, putLoop, batchLoop,
       afterRaise, afterValue] at h) <;>
@@ -59,7 +60,7 @@ macro "clean_group" : tactic => `(tactic| (
     (try simp only [Option.some.injEq, Prod.mk.injEq, reduceCtorEq] at h) <;>
     (try (obtain ⟨-, rfl, rfl⟩ := h)) <;>
     (try (have hen : t.pc = Pc.eNext := hpc; clear hen; cases hprog : t.prog)) <;>
-    simp_all [Shared.setOwner, Shared.owner, pcKind, Prog.kind, noFail, Prog.noFail, progRet, stopped] <;>
+    simp_all [Shared.setOwner, Shared.owner, pcKind, Prog.kind, noFail, Prog.noFail, progRet, stopped, isProd] <;>
     (try (refine ⟨?_, ?_⟩ <;> assumption))))
 
 theorem clean_g0 {s t tid alt} (hg : t.pc.group = 0) : CleanStep s t tid alt := by clean_group
@@ -106,8 +107,8 @@ macro "sh_group" : tactic => `(tactic| (
   intro lbl s' t' h htok htl he hto hct hax hlost hqe
   unfold TL at htl
   have hk := htok.kind; have hr := htok.res
-  obtain ⟨c1, c2, c3, c4, c5, c7, c6⟩ := hct
-  clear htok c1 c2 c5 c7
+  obtain ⟨c1, c2, c3, c4, c5, c7, c6, c8, c9⟩ := hct
+  clear htok c1 c2 c5 c7 c8 c9
   unfold stepThread at h
   cases hpc : t.pc <;> (try (simp only [hpc, Pc.group] at hg; omega)) <;>
     simp only [hpc] at h hk c4 c6 htl <;>
